@@ -7,7 +7,7 @@ From Coq Require Import ZArith List Bool Lia.
 From DV Require Import Model.PyPrims Model.Tree Model.Heap Model.HeapOps Model.C15Prims Model.MutPrims Gen.Mutators
      Model.C03GenInst Proofs.C03Base Proofs.C03GenPrims Proofs.C03GenPrune.
 From DV Require Model.C08Model Proofs.C03Hist Proofs.C08Final Proofs.C08Base Proofs.C08InPlace Proofs.C08Prune Proofs.C08More
-     Proofs.C08W10Prune Proofs.C08W11Leaf Proofs.C08W11LeafGen.
+     Proofs.C08W10Prune Proofs.C08W11Leaf Proofs.C08W11LeafGen Proofs.C08W11NonRec.
 Import ListNotations.
 Open Scope Z_scope.
 
@@ -117,3 +117,24 @@ Example gen_plwt_nonrec_run :
   | _ => None
   end = Some (T 0 None None None [T 1 None None (Some 2048) []; T 4 (Some 2) None (Some 1024) []]).
 Proof. vm_compute. reflexivity. Qed.
+
+(* companion for filter_leaf_nodes(recursive=False): the generated method refuses exactly where the one-pass
+   specification is empty (the seed itself is a rejected leaf), and leaves a well-formed heap *)
+Theorem gen_filter_nonrec_refuses (fuel : nat) keep ub su h t :
+  (fuel_of h <= fuel)%nat ->
+  WF h -> abs h = Some t ->
+  C08Model.restrictG su (C08Model.keep_ids keep) C08Model.np_true C08Model.np_true t = None ->
+  exists h', to_hres (Tree_filter_leaf_nodes HG fuel (fun nd => memz nd keep) false ub su h) = HErr OtherErr h' /\ WF h'.
+Proof.
+  intros Hf W A R. pose proof (C08W11NonRec.heap_filter_nonrec_restrictG keep ub su h t W A) as G. rewrite R in G.
+  destruct G as [h' [E W']].
+  exists h'. split; [|assumption].
+  rewrite (gen_filter_leaf_nodes fuel keep false ub su h Hf); rewrite E; [reflexivity|discriminate].
+Qed.
+
+(* a single taxon-less node: both one-pass methods refuse *)
+Definition w12_lone : heap := of_tree (T 0 None None None []) (Some true).
+Example w12_lone_refused :
+  to_hres (Tree_prune_leaves_without_taxa HG 10 false false false w12_lone) = HErr OtherErr w12_lone /\
+  to_hres (Tree_filter_leaf_nodes HG 10 (fun nd => memz nd []) false false false w12_lone) = HErr OtherErr w12_lone.
+Proof. split; vm_compute; reflexivity. Qed.
